@@ -410,6 +410,13 @@ def part2_cases(tier):
                 cases.append(("hangul", (s, tj)))
         elif tier == "thorough" or t in (1, 27):
             cases.append(("hangul", (s, TB + t)))
+    # long runs of combining marks: the reorder step keeps 10 on the stack, grows in steps, and must stay a *stable* sort
+    # for any run length (same class, different marks, at every position incl. beyond 255)
+    A, B2 = (0x0300, 0x0301, 0x0302, 0x0303), (0x0323, 0x0324, 0x0325)
+    for L in (9, 10, 11, 12, 21, 33, 64, 100, 255, 256, 257, 300, 515):
+        cases.append(("longrun", (0x61,) + tuple(A[i % 4] for i in range(L))))                       # one class, order must be kept
+        cases.append(("longrun", (0x61,) + tuple((A[i % 4] if i % 2 else B2[i % 3]) for i in range(L))))  # two classes interleaved
+        cases.append(("longrun", (0x61,) + tuple(A[(i * 7) % 4] for i in range(L)) + (0x62, 0x0323, 0x0301)))
     for l in range(LB - 1, LB + 20):      # U+10FF .. U+1113
         for v in range(VB - 1, VB + 22):  # U+1160 .. U+1176
             cases.append(("hangul", (l, v)))
